@@ -21,7 +21,25 @@ def _le(a, b, scale):
     return a <= b + R * scale + 1e-300
 
 
-def consts(model):
+def consts(model, cfg=None, secs=None):
+    """constants the oracles use.  With the scenario's configuration at hand, the parameters the constructors
+    *derive* from it (restoration share, overproduction rate) are re-derived here from the documented formulas
+    (characteristic time in temporal units -> per-step rate dt / tau) instead of being read back from the model."""
+    c = _consts_from_model(model)
+    if cfg is not None:
+        dt = float(cfg.get("dt", 1))
+        c["aTau"] = dt / float(cfg["alpha_tau"])
+        if cfg.get("class") == "psi":
+            rt = cfg.get("restoration_tau", 60)
+            names = sorted(secs) if secs is not None else None
+            if isinstance(rt, dict) and names is not None:
+                c["rest"] = np.array([dt / float(rt[s_]) for s_ in names])
+            elif not isinstance(rt, dict):
+                c["rest"] = np.full(model.n_sectors, dt / float(rt))
+    return c
+
+
+def _consts_from_model(model):
     n = model.n_sectors
     inv = np.asarray(model.inv_duration, dtype=float)
     return {
@@ -215,7 +233,12 @@ def c06(tr, st, c):
     if (o < 0).any():
         out.append(viol("C06", t, "negative orders", min=float(o.min())))
     cap = capacity(c, pre)
-    xo = np.fmin(pre["dTot"], cap)
+    # total demand addressed to each industry, from the demand matrix itself (not from the model's cached row sums:
+    # a stale cache would make the inventory target follow demand that has already been served)
+    tot = pre["orders"].sum(axis=1) + pre["fd"].sum(axis=1)
+    if pre.get("reb") is not None and np.size(pre["reb"]):
+        tot = tot + np.asarray(pre["reb"]).reshape(tot.shape[0], -1).sum(axis=1)
+    xo = np.fmin(tot, cap)
     goal = xo[None, :] * c["a"] * c["dur0"][:, None]
     st_f = np.where(c["fin"][:, None], pre["stock"], 0.0)
     gap_open = np.where(c["fin"][:, None], np.maximum(0.0, goal - st_f), 0.0) * c["rest"][:, None]
@@ -297,6 +320,25 @@ def c07(tr, st, c):
         out.append(viol("C07", t, "capacity loss for an industry no active event affects"))
     if (lost > K * (1 + R)).any():
         out.append(viol("C07", t, "destroyed capital above the capital stock was accepted", cell=int(np.argmax(lost - K))))
+    # while an event is happening (before reconstruction / recovery starts) the capital it destroyed is its declared
+    # impact, converted to the model's unit by event factor / model factor
+    sc = getattr(tr, "sc", None)
+    if sc is not None and len(sc["events"]) == len(post["trackers"]):
+        from harness import scen as _scen
+        regs, secs, _c = _scen.labels(sc["table"])
+        regs, secs = sorted(regs), sorted(secs)
+        mf = float(sc["model"]["monetary_factor"])
+        for i, (ev, trk) in enumerate(zip(sc["events"], post["trackers"])):
+            if ev["type"] == "arbitrary" or trk["status"] != "happening" or trk["dmg"] is None or trk["occ"] != ev["occ"]:
+                continue
+            want_d = np.zeros(N)
+            for key, v in ev["impact"].items():
+                r_, s_ = key.split("|")
+                want_d[regs.index(r_) * len(secs) + secs.index(s_)] = float(v) * float(ev["emf"]) / mf
+            if not np.allclose(trk["dmg"], want_d, rtol=1e-9, atol=0):
+                j = int(np.argmax(np.abs(trk["dmg"] - want_d)))
+                out.append(viol("C07", t, f"event {i}: capital counted as destroyed differs from the declared impact x event factor / model factor",
+                                cell=j, counted=float(trk["dmg"][j]), declared=float(want_d[j])))
     return out
 
 
